@@ -1,9 +1,22 @@
-(* Obligation of C14 on the write set regenerated from /repo/vm on every run (harness/c14.go, go/types):
-   no statement of package vm writes to a field of a syntax-tree node that was not built in the same
-   function. *)
+(* Obligations of C14 on what is regenerated from /repo on every run (harness/c14.go, go/types):
+   (1) no statement of package vm writes to a field of a syntax-tree node that was not built in the same
+       function;
+   (2) outside package initialisation, the packages a run goes through (vm, parser, core, env, ast,
+       ast/astutil) write to no package-level variable - no assignment, ++/--, store through an index or
+       field of one, no mutating call on a package-level sync.Map / sync.Pool / atomic value - except the
+       two debugging switches of the generated parser, which a host sets explicitly.  Executions can
+       therefore share no state through package variables: what a run can reach is its tree (1) and
+       the environment it was given. *)
 From Coq Require Import String List.
 From AnkoGen Require Import GenAstWrites.
 Import ListNotations.
+Open Scope string_scope.
 
 Theorem interpreter_never_writes_into_the_parsed_tree : non_fresh_ast_writes = [].
+Proof. reflexivity. Qed.
+
+Definition host_switches : list string :=
+  ["parser: EnableDebug assigns yyDebug"; "parser: EnableErrorVerbose assigns yyErrorVerbose"].
+
+Theorem runs_share_no_package_state : package_state_writes = host_switches.
 Proof. reflexivity. Qed.
